@@ -53,8 +53,7 @@ class Sequential(_module_list.ModuleList):
         with the parent name, Sequential keeps children with simple index
         names because ``__call__`` already pushes the Sequential's own name.
         """
-        if module._name is None:  # pylint: disable=protected-access
-            object.__setattr__(module, "_name", key)
+        module._set_name(key)  # pylint: disable=protected-access
         self._modules[key] = module
         object.__setattr__(self, key, module)
 
